@@ -524,6 +524,11 @@ def totality_problems(paths, label='', single_chars=False) -> Tuple[List[str], L
         for e in p.events:
             if e.kind == 'binop' and e.op == '%' and not is_const(freeze(e.left)):
                 problems.append('`%s` uses text the program controls as a %%-template' % e.text())
+            if single_chars and e.kind == 'load_sub':
+                ix = freeze(e.index)
+                # in t_error the token value is the rest of the text from the offending character: never empty, possibly one long
+                if is_const(ix) and isinstance(ix[1], int) and ix[1] not in (0, -1):
+                    problems.append('`%s` indexes position %d of the remaining text: IndexError when the offending character is the last one' % (e.text(), ix[1]))
             if e.kind != 'call' or e.d.get('inlined'):
                 continue
             f = freeze(e.func)
